@@ -214,6 +214,13 @@ func c12Alphabet(tier string) func(raw json.RawMessage, depth int) []Op {
 				c.Notify, c.Seq = notify(u), seq
 				ops = append(ops, c)
 			}
+			if created[u] > 0 && depth <= 2 {
+				// a create of a known subscriber that is rejected (pDUSessionChargingInformation without pduSessionInformation)
+				// and names another notification URI: a rejected request registers nothing
+				rc := mkCreate(u, "smf-rej")
+				rc.NoPSI, rc.Notify, rc.Seq, rc.Method = true, "http://smf-x.example/notify", seq, "rejected-create"
+				ops = append(ops, rc)
+			}
 			if created[u] > 0 {
 				ops = append(ops, Op{K: "recharge", U: u, RG: 1, Amt: 100})
 				if u == 0 {
@@ -254,6 +261,12 @@ func c12Alphabet(tier string) func(raw json.RawMessage, depth int) []Op {
 			ops = append(ops, Op{K: "update", S: stale, MUs: usage(100, 10, tag), Seq: seq, Method: "stale-reference"})
 			ops = append(ops, Op{K: "release", S: stale, MUs: usage(-1, 10, tag), Trig: []string{"FINAL"}, Seq: seq, Method: "stale-reference"})
 			_ = s
+		}
+		if in.Events >= 1 {
+			// the empty string is not a reference the CHF ever handed out (a one-time event opens no session)
+			tag := int32(1800 + 10*depth)
+			ops = append(ops, Op{K: "update", Supi: supiA, EmptyRef: true, MUs: usage(100, 10, tag), Seq: seq, Method: "empty-reference"})
+			ops = append(ops, Op{K: "release", Supi: supiA, EmptyRef: true, MUs: usage(-1, 10, tag), Trig: []string{"FINAL"}, Seq: seq, Method: "empty-reference"})
 		}
 		if liveOf[0] >= 0 && liveOf[1] >= 0 {
 			// B's reference presented with A's subscriber identifier
